@@ -146,6 +146,18 @@ INT_RETS = [
 INT_RET = {x.key: x for x in INT_RETS}
 INT_RET["ir_u64_io_alias"] = Ret("ir_u64_io_alias", "AliasRes<u64, std::io::Error>", INT_RET["ir_u64_io"].expr, "ret.dg()", int_result=True, c_kind="int")
 
+INT_RET["ir_u64_one"] = Ret("ir_u64_one", "IoRes<u64>", INT_RET["ir_u64_io"].expr, "ret.dg()", int_result=True, c_kind="int")
+INT_RET["ir_unit_one"] = Ret("ir_unit_one", "IoRes<()>", INT_RET["ir_unit_io"].expr, "ret.dg()", int_result=True, c_kind="int")
+
 _NONOS = 'std::io::Error::new(std::io::ErrorKind::Other, "non-os")'
 INT_RET["plain_io"] = Ret("plain_io", "Result<u64, std::io::Error>", "match st & 3 { 0 => Err(%s), 1 => Err(std::io::Error::from_raw_os_error(%s)), _ => Ok(st) }" % (_NONOS, _CODE), "ret.dg()", c_kind="cresult")
 INT_RET["plain_io_unit"] = Ret("plain_io_unit", "Result<(), std::io::Error>", "match st & 3 { 0 => Err(%s), 1 => Err(std::io::Error::from_raw_os_error(%s)), _ => Ok(()) }" % (_NONOS, _CODE), "ret.dg()", c_kind="cresult")
+
+# An integer-coded result is lossy for errors without an OS code: through the object such an error can only come back as an OS
+# error.  Seeing the rich error unchanged on the object side means the vtable entry does not use the integer convention at all.
+_LOSSY_AFTER = ('if let Err(e) = &ret { if e.raw_os_error().is_none() && sk.opaque.load(::std::sync::atomic::Ordering::SeqCst) { '
+                'sk.model.lock().unwrap().push("a method marked for integer results returned an error without OS code unchanged through the object: its vtable entry does not use the integer convention".to_string()); } }')
+_LOSSY_DG = "match &ret { Ok(v) => mix(1, v.dg()), Err(e) => mix(2, e.raw_os_error().unwrap_or(0xffff) as u32 as u64) }"
+INT_RET["ir_u64_io_lossy"] = Ret("ir_u64_io_lossy", "Result<u64, std::io::Error>", INT_RET["plain_io"].expr, _LOSSY_DG, after=_LOSSY_AFTER, int_result=True, c_kind="int")
+INT_RET["ir_u64_one_lossy"] = Ret("ir_u64_one_lossy", "IoRes<u64>", INT_RET["plain_io"].expr, _LOSSY_DG, after=_LOSSY_AFTER, int_result=True, c_kind="int")
+INT_RET["ir_u64_alias_lossy"] = Ret("ir_u64_alias_lossy", "AliasRes<u64, std::io::Error>", INT_RET["plain_io"].expr, _LOSSY_DG, after=_LOSSY_AFTER, int_result=True, c_kind="int")
